@@ -98,6 +98,9 @@ thread_local! {
 fn install_panic_hook() {
     std::panic::set_hook(Box::new(|info| {
         let loc = info.location().map(|l| format!("{}:{}", l.file(), l.line())).unwrap_or_default();
+        if std::env::var_os("CCSIM_DEBUG").is_some() {
+            eprintln!("panic at {}: {:?}", loc, info.payload().downcast_ref::<&str>().map(|s| s.to_string()).or(info.payload().downcast_ref::<String>().cloned()));
+        }
         let _ = LAST_PANIC.try_with(|l| {
             if let Ok(mut l) = l.try_borrow_mut() {
                 *l = loc;
